@@ -35,11 +35,11 @@ Definition allowed_weak (r : result) : Prop :=
   | RVal | RExc (XNSP Self) | RExc (XZombie Self) | RExc (XAD Self) => True
   | RExc _ => False
   end.
-(* tree calls (parent, parents, children): errors of the other Process objects they query may carry that pid *)
+(* tree calls (parent, parents, children, process_iter): an AccessDenied raised by a query on another Process object
+   may carry that process's pid; nothing else about another process escapes *)
 Definition allowed_tree (r : result) (gone_at_end : bool) : Prop :=
   match r with
-  | RExc (XNSP Other) | RExc (XZombie Other) | RExc (XAD Other) => True
-  | RExc (XNSP Any) | RExc (XZombie Any) | RExc (XAD Any) => True
+  | RExc (XAD Other) | RExc (XAD Any) => True
   | _ => allowed r gone_at_end
   end.
 (* wait(timeout): TimeoutExpired for a process that is still there *)
